@@ -51,6 +51,7 @@ CONSTANTS
   EnvelopeHoldsRef,    \* BOOLEAN: queued envelopes keep the actor referenced (FALSE = deviation)
   MetricsOn,           \* BOOLEAN: feature metrics (extra ActorRef clone during a handler)
   MaxRun,              \* bound on on_run invocations per actor (keeps the model finite)
+  NestThen,            \* BOOLEAN: hooks may finish in the same poll in which a nested operation completed
   AvoidCycles,         \* BOOLEAN: hooks never issue an ask that would close a cycle (cycle-free programs)
   MaxProbes            \* bound on pure observations (is_alive / identity), which do not change state
 
@@ -377,6 +378,21 @@ DropRun(s, a) ==
               ELSE s
   IN  R(s1, << [e |-> "RunDrop", a |-> a, inst |-> A.inst] >>)
 
+\* the on_run future completes with outcome `dir` in the poll in progress (`polled` = this poll's RunPoll event has
+\* not been emitted yet)
+RunFinish(s, a, dir, polled) ==
+  LET A == s.A[a]
+      pe == (IF polled THEN << [e |-> "RunPoll", a |-> a, inst |-> A.inst] >> ELSE <<>>)
+            \o << [e |-> "RunEnd", a |-> a, inst |-> A.inst, out |-> dir] >> IN
+            IF dir = "true" THEN
+                 Then(R(SetA(s, a, [jl |-> Append(A.jl, "run")]), pe), LAMBDA t : SelectPart(t, a))
+            ELSE IF dir = "false" THEN
+                 Then(R(SetA(s, a, [idle |-> FALSE, jl |-> Append(A.jl, "run")]), pe),
+                      LAMBDA t : SelectPart(t, a))
+            ELSE IF dir = "err" THEN
+                 Then(R(SetA(s, a, [runErr |-> TRUE]), pe), LAMBDA t : EnterStop(t, a, FALSE, FALSE))
+            ELSE LET r == Finish(s, a, ResPanic("scripted"), <<>>) IN R(r.s, pe \o r.evs)
+
 \* a hook parked on its gate receives the directive `dir` (a hook outcome)
 ExitHook(s, a, dir) ==
   LET A == s.A[a] IN
@@ -420,16 +436,7 @@ ExitHook(s, a, dir) ==
        IF A.term \/ Strong(s, a) = 0 \/ A.mbox # <<>> THEN
             \* another branch wins: the on_run future is dropped unfinished
             Then(DropRun(s, a), LAMBDA t : SelectPart(t, a))
-       ELSE LET pe == << [e |-> "RunPoll", a |-> a, inst |-> A.inst],
-                         [e |-> "RunEnd", a |-> a, inst |-> A.inst, out |-> dir] >> IN
-            IF dir = "true" THEN
-                 Then(R(SetA(s, a, [jl |-> Append(A.jl, "run")]), pe), LAMBDA t : SelectPart(t, a))
-            ELSE IF dir = "false" THEN
-                 Then(R(SetA(s, a, [idle |-> FALSE, jl |-> Append(A.jl, "run")]), pe),
-                      LAMBDA t : SelectPart(t, a))
-            ELSE IF dir = "err" THEN
-                 Then(R(SetA(s, a, [runErr |-> TRUE]), pe), LAMBDA t : EnterStop(t, a, FALSE, FALSE))
-            ELSE LET r == Finish(s, a, ResPanic("scripted"), <<>>) IN R(r.s, pe \o r.evs)
+       ELSE RunFinish(s, a, dir, TRUE)
 
 \* a hook parked on its gate is told to perform a nested op on handle h
 NestOp0(s, a, kind, h, d) ==
@@ -445,17 +452,23 @@ NestOp0(s, a, kind, h, d) ==
              r  == FirstPoll(SetA(s1, a, [hop |-> o]), o)
          IN  r
 
-\* inside on_run the operation is issued by a poll of the on_run future (logged as RunPoll)
-NestOp(s, a, kind, h, d) ==
-  LET r == NestOp0(s, a, kind, h, d) IN
-  IF s.A[a].pc # "Run" THEN r
-  ELSE LET r1 == R(r.s, << [e |-> "RunPoll", a |-> a, inst |-> s.A[a].inst] >> \o r.evs)
-           B  == r.s.A[a]
-       IN  \* the operation may have woken the actor's own task (a message, stop request or kill sent to
-           \* itself): the select is polled again in the same burst and the branch before on_run wins
-           IF B.pc = "Run" /\ (B.term \/ Strong(r.s, a) = 0 \/ B.mbox # <<>>)
-             THEN Then(Then(r1, LAMBDA t : DropRun(t, a)), LAMBDA t : SelectPart(t, a))
-             ELSE r1
+\* inside on_run the operation is issued by a poll of the on_run future (logged as RunPoll).
+\* `then` # "": if the operation completes at once, the hook finishes with that outcome in the very same poll
+\* (a hook that does something and returns without yielding in between)
+NestOp(s, a, kind, h, d, then) ==
+  LET r   == NestOp0(s, a, kind, h, d)
+      pc0 == s.A[a].pc
+      B   == r.s.A[a]
+      now == then # "" /\ B.pc = pc0 /\ B.hop = 0        \* completed at once, hook still alive
+  IN
+  IF pc0 # "Run" THEN (IF now THEN Then(r, LAMBDA t : ExitHook(t, a, then)) ELSE r)
+  ELSE LET r1 == R(r.s, << [e |-> "RunPoll", a |-> a, inst |-> s.A[a].inst] >> \o r.evs) IN
+       IF now THEN Then(r1, LAMBDA t : RunFinish(t, a, then, FALSE))
+       \* the operation may have woken the actor's own task (a message, stop request or kill sent to
+       \* itself): the select is polled again in the same burst and the branch before on_run wins
+       ELSE IF B.pc = "Run" /\ (B.term \/ Strong(r.s, a) = 0 \/ B.mbox # <<>>)
+         THEN Then(Then(r1, LAMBDA t : DropRun(t, a)), LAMBDA t : SelectPart(t, a))
+         ELSE r1
 
 OutsOf(pc) == IF pc = "Start" THEN StartOuts ELSE IF pc = "Handler" THEN HandlerOuts
               ELSE IF pc = "Stop" THEN StopOuts ELSE IF pc = "Run" THEN RunOuts ELSE {}
@@ -499,6 +512,9 @@ CmdEnabled(s, cmd) ==
             /\ (cmd.kind \notin TimedKinds => cmd.d = 0)
             /\ (AvoidCycles /\ cmd.kind \in AskKinds =>
                    LET callee == s.H[cmd.h].a IN cmd.a # callee /\ ~HasPath(s.wf, callee, cmd.a))
+            /\ \/ cmd.then = ""
+               \/ /\ NestThen /\ cmd.then \in OutsOf(A.pc)
+                  /\ (A.pc = "Run" /\ cmd.then = "true" => A.inst < MaxRun)
        [] cmd.c = "advance" -> /\ cmd.d >= 1 /\ s.now + cmd.d <= MaxTime
                                \* a client collects every result that is ready before time moves on
                                /\ \A c \in Clients : s.C[c] = 0 \/ ~Pollable(s, s.C[c])
@@ -554,7 +570,7 @@ DoRaw(s, cmd) ==
          ELSE IF A.pc = "Run" THEN
               Then(DropRun(s, a), LAMBDA t : SelectPart(t, a))
          ELSE SelectPart(s, a)                         \* "Idle" woken
-    [] cmd.c = "nest"  -> NestOp(s, cmd.a, cmd.kind, cmd.h, cmd.d)
+    [] cmd.c = "nest"  -> NestOp(s, cmd.a, cmd.kind, cmd.h, cmd.d, cmd.then)
     [] cmd.c = "advance" -> R([s EXCEPT !.now = @ + cmd.d], << [e |-> "Advance", now |-> s.now + cmd.d] >>)
     [] cmd.c = "clone" ->
          R([s EXCEPT !.H[s.nextH] = s.H[cmd.h], !.nextH = @ + 1],
@@ -626,8 +642,9 @@ StartCmds   == {[c |-> "start", cl |-> cl, kind |-> k, h |-> h, d |-> d] :
 PollCmds    == {[c |-> "poll", cl |-> cl] : cl \in Clients}
 BurstCmds   == {[c |-> "burst", a |-> a, dir |-> d] :
                    a \in Actors, d \in {"none"} \cup StartOuts \cup HandlerOuts \cup RunOuts \cup StopOuts}
-NestCmds    == {[c |-> "nest", a |-> a, kind |-> k, h |-> h, d |-> d] :
-                   a \in Actors, k \in NestKinds, h \in HIds, d \in Timeouts \cup {0}}
+NestCmds    == {[c |-> "nest", a |-> a, kind |-> k, h |-> h, d |-> d, then |-> t] :
+                   a \in Actors, k \in NestKinds, h \in HIds, d \in Timeouts \cup {0},
+                   t \in {""} \cup (IF NestThen THEN StartOuts \cup HandlerOuts \cup RunOuts \cup StopOuts ELSE {})}
 AdvanceCmds == {[c |-> "advance", d |-> d] : d \in 1..MaxTime}
 HandleCmds  == {[c |-> k, h |-> h] : k \in HandleOps \ {"erase"}, h \in HIds}
 EraseCmds   == {[c |-> "erase", h |-> h, vk |-> vk, by |-> by] : h \in HIds, vk \in EraseKinds, by \in {"val","ref"}}
